@@ -127,6 +127,26 @@ def run(tier, seed):
         for wden in (2, 4):
             insts.append({"kind": "dag", "nodes": u["nodes"], "edges": u["edges"], "ew": u["ew"], "wden": wden, "starts": [], "ends": [],
                           "ops": [["bottleneck"], ["decompose"], ["reach", u["nodes"][0]], ["decompose"]]})
+    # components that lie on no source-to-sink route: a cycle nothing leads into (it is not below the global source) and a cycle
+    # nothing leads out of (it does not drain into the global sink); every node incl. the synthetic ends asked twice (cold / warm)
+    for u in C.spread(cyc4, 12 if quick else 120) + C.spread(cyc, 6 if quick else 40):
+        for shape in ("sourceless", "sinkless", "both"):
+            # attached to a node that is not a source / sink already: the graph keeps its sources and sinks, it stays well-formed
+            vin = [n for n in u["nodes"] if any(e[1] == n for e in u["edges"])]
+            vout = [n for n in u["nodes"] if any(e[0] == n for e in u["edges"])]
+            extra = []
+            if shape in ("sourceless", "both"):
+                extra += [["x1", "y1"], ["y1", "x1"], ["y1", rng.choice(vin)]]
+            if shape in ("sinkless", "both"):
+                extra += [[rng.choice(vout), "x2"], ["x2", "y2"], ["y2", "x2"]]
+            nodes = u["nodes"] + sorted({n for e in extra for n in e} - set(u["nodes"]))
+            qs = nodes + ["S*", "T*"]
+            rng.shuffle(qs)
+            ops = [[o, n] for n in qs for o in ("reach", "reaching")]
+            ops += [["scc_stats"]] + [["is_scc_edge", e[0], e[1]] for e in extra] + ops
+            insts.append({"kind": "digraph", "nodes": nodes, "edges": [list(e) for e in u["edges"]] + extra,
+                          "ew": list(u["ew"]) + [1] * len(extra), "starts": [], "ends": [], "ops": ops})
+            res.count_class("components_off_every_route")
     C.with_ids(insts)
     recs = P.drive_substrate(insts)
     bad_ctor = [r for r in recs if r["ctor_exc"] != "none"]
